@@ -42,6 +42,9 @@ func unmarshalAndVerifyData(data []byte) (types.Signers, error) {
 	if err != nil {
 		return nil, err
 	}
+	if newSigners == nil {
+		return nil, ErrSignersNumber
+	}
 
 	if len(newSigners.Signers) > MaxSignersNumber {
 		log.Errorf("Cannot exceed the maximum number of signers. signers number: %d,MaxSignersNumber: %d", len(newSigners.Signers), MaxSignersNumber)
